@@ -24,7 +24,7 @@ NaN test are ignored there) are obligations of their own.
 import z3
 
 from vp.pyvc import (Interp, Sym, SArr, SObj, SList, Summary, IRaise, RangeInvariant, fresh, num_expr,
-                     bool_expr, int_expr, RMUL, ABSTRACT)
+                     bool_expr, int_expr, RMUL, ABSTRACT, DType)
 from vp.core import OutsideSubset, z3val, run_parallel
 
 PROP = "C09"
@@ -39,6 +39,8 @@ def check(reg, tier):
     run_parallel(reg, _job, [1, 2, 3, 4, 5])
     _shortcut(reg)
     _validation(reg)
+    _duplicates(reg)
+    _pykernel_init(reg)
     reg.assume("form(), form_volume(), form_radius() are the model's own functions of the current parameter vector "
                "(closures over PyKernel._parameter_vector): replaced by uninterpreted functions of the mesh step, "
                "with the obligation that the vector equals P(step) at every call")
@@ -364,6 +366,146 @@ def _validation(reg):
                    seconds=time.time() - t0, bound="%d enumerated tables (1-2 shape parameters, every subset, order, "
                                                    "position and mistyping of theta/phi/psi)" % ncases)
 
+
+
+def _duplicates(reg):
+    """Bounded run-time contract: a definition is rejected iff two of its CALLING parameters share a name -
+    including the implicit scale/background, the expanded names of vector parameters and the generated magnetic
+    names."""
+    import time
+    from sasmodels.modelinfo import Parameter, ParameterTable
+    t0 = time.time()
+
+    from sasmodels import modelinfo as _mi
+
+    def P(name, typ="volume", length=1, control=None):
+        nm = name if length == 1 and control is None else "%s[%s]" % (name, control or length)
+        return [nm, "Ang", 10.0, [0, 100], typ, ""]
+    n_par = ["n", "", 2, [1, 3], "volume", ""]
+    ParameterTable = _mi.make_parameter_table      # the library's own construction from the definition lists
+    cases = [
+        ("two_scalars_same_name", [P("radius"), P("radius")], False),
+        ("parameter_called_scale", [P("radius"), P("scale", "")], False),
+        ("parameter_called_background", [P("background", ""), P("radius")], False),
+        ("scalar_collides_with_vector_element", [n_par, P("thickness", control="n"), P("thickness2")], False),
+        ("parameter_collides_with_magnetic_name", [P("sld", "sld"), P("sld_M0", "")], False),
+        ("parameter_called_up_theta_with_sld", [P("sld", "sld"), P("up_theta", "")], False),
+        ("distinct_names", [P("radius"), P("length"), P("sld", "sld")], True),
+        ("vector_and_other_scalar", [n_par, P("thickness", control="n"), P("radius")], True),
+        ("up_theta_without_magnetism", [P("radius"), P("up_theta", "")], True),
+    ]
+    bad = []
+    for name, table, well in cases:
+        try:
+            t = ParameterTable(table)
+            accepted = True
+            names = [p.id for p in t.call_parameters]
+            really_distinct = len(set(names)) == len(names)
+        except (TypeError, ValueError):
+            accepted, really_distinct = False, None
+        if accepted != well or (accepted and not really_distinct):
+            bad.append({"case": name, "accepted": accepted, "well_formed": well})
+    oid = "%s.validation.duplicate_calling_parameters_rejected" % PROP
+    fn = "sasmodels.modelinfo.ParameterTable.check_duplicates"
+    if bad:
+        reg.fail(oid, {"call": "ParameterTable(<%s>)" % bad[0]["case"], "real": bad, "spec": "rejected iff a calling name repeats"},
+                 function=fn, kind="bounded")
+    else:
+        reg.passed(oid, function=fn, kind="bounded", backend="run-time contract", seconds=time.time() - t0,
+                   bound="%d parameter tables (implicit, vector-expanded and magnetic names)" % len(cases))
+
+
+def _pykernel_init(reg):
+    """PyKernel.__init__ (python models): the shared parameter vector has one slot per value between
+    scale/background and the dispersity tables (nvalues - 2, i.e. including the magnetic slots that values carries
+    for SLD parameters) - _loops finds the dispersity tables right after it - and the argument views of Iq /
+    form_volume are the slots of their parameters."""
+    import types
+    import numpy as np
+    import sasmodels.kernelpy as live
+    from sasmodels import modelinfo
+    fn = "sasmodels.kernelpy.PyKernel.__init__"
+
+    def info_of(name, parameters):
+        mod = types.ModuleType("verif_py_" + name)
+        mod.__file__ = "verif_py_%s.py" % name
+        mod.name, mod.title, mod.description, mod.category = name, "t", "d", "shape:sphere"
+        mod.parameters = parameters
+        mod.Iq = lambda q, *a: q
+        mod.Iq.vectorized = True
+        mod.form_volume = lambda *a: 1.0
+        return modelinfo.make_model_info(mod)
+    tables = {
+        "plain": [["radius", "Ang", 20, [0, 100], "volume", ""], ["x", "", 1, [0, 10], "", ""]],
+        "with_sld": [["sld", "1e-6/Ang^2", 1, [-10, 10], "sld", ""], ["radius", "Ang", 20, [0, 100], "volume", ""],
+                     ["sld_solvent", "1e-6/Ang^2", 6, [-10, 10], "sld", ""]],
+        "with_vector": [["n", "", 2, [1, 3], "volume", ""], ["thickness[n]", "Ang", 5, [0, 50], "volume", ""],
+                        ["sld", "1e-6/Ang^2", 1, [-10, 10], "sld", ""]],
+    }
+    for name, pars in tables.items():
+        info = info_of(name, pars)
+
+        def body(it, info=info, name=name):
+            q = it.new_array("q", z3.Int("nq"), "real")
+            qin = it.new_obj(None, {"nq": Sym(z3.Int("nq")), "dtype": DType("f8"), "is_2d": False, "q": q}, "q_input")
+            selfo = it.new_obj(live.PyKernel, {}, "PyKernel")
+            f = it.get_func(MOD, "PyKernel.__init__")
+            it.call(f, [selfo, info, qin])
+            pv = it.getattr(selfo, "_parameter_vector")
+            pt = info.parameters
+            n = pv.length() if isinstance(pv, SArr) else None
+            reg.prove("%s.PyKernel.__init__.parameter_vector_spans_values_2_to_nvalues.%s" % (PROP, name), it.pc,
+                      z3.BoolVal(bool(isinstance(n, int) and n == pt.nvalues - 2)), function=fn,
+                      replay=lambda mdl=None: replay_pykernel_init(),
+                      describe="len(parameter vector) == nvalues - 2 (the offset at which _loops reads the dispersity values)")
+            vol = it.getattr(selfo, "_volume_args")
+            slots, pos = {}, 0
+            for p in pt.kernel_parameters:
+                slots[p.id] = (pos, p.length)
+                pos += p.length
+            items = vol.items if hasattr(vol, "items") else list(vol)
+            want = [slots[p.id] for p in pt.form_volume_parameters]
+            ok = len(items) == len(want) and all(isinstance(v, SArr) and v.buf is pv.buf and v.off == w[0]
+                                                 and (v.n == w[1]) for v, w in zip(items, want))
+            reg.prove("%s.PyKernel.__init__.volume_arguments_are_views_of_their_slots.%s" % (PROP, name), it.pc,
+                      z3.BoolVal(bool(ok)), function=fn, replay=lambda mdl=None: replay_pykernel_init())
+        it = Interp(reg)
+        it.poison_one_arm = False
+        try:
+            it.run_paths(body)
+        except OutsideSubset as exc:
+            reg.undecided("%s.PyKernel.__init__.engine.%s" % (PROP, name), "outside subset: %s" % exc, function=fn)
+
+
+def replay_pykernel_init():
+    """A python model with SLD parameters and a dispersed radius, evaluated by the python kernel, against the
+    explicit weighted sum."""
+    import types
+    import numpy as np
+    from sasmodels import modelinfo, core, weights
+    from sasmodels.direct_model import call_kernel
+    mod = types.ModuleType("verif_py_replay")
+    mod.__file__ = "verif_py_replay.py"
+    mod.name, mod.title, mod.description, mod.category = "verif_py_replay", "t", "d", "shape:sphere"
+    mod.parameters = [["sld", "1e-6/Ang^2", 1, [-10, 10], "sld", ""], ["radius", "Ang", 20, [0, 100], "volume", ""],
+                      ["sld_solvent", "1e-6/Ang^2", 6, [-10, 10], "sld", ""]]
+
+    def Iq(q, sld, radius, sld_solvent):
+        return (sld - sld_solvent) ** 2 * radius ** 6 * np.exp(-(q * radius) ** 2 / 5)
+    Iq.vectorized = True
+    mod.Iq = Iq
+    mod.form_volume = lambda radius: radius ** 3
+    info = modelinfo.make_model_info(mod)
+    model = core.build_model(info)
+    q = np.array([0.01, 0.05, 0.1])
+    pars = dict(sld=2.0, sld_solvent=5.0, radius=30.0, radius_pd=0.2, radius_pd_n=11, radius_pd_nsigma=2.0, background=0.0)
+    got = np.asarray(call_kernel(model.make_kernel([q]), pars))
+    rv, rw = weights.get_weights("gaussian", 11, 0.2, 2.0, 30.0, [0, 100], True)
+    num = sum(w * Iq(q, 2.0, r, 5.0) for r, w in zip(rv, rw))
+    den = sum(w * r ** 3 for r, w in zip(rv, rw))
+    want = num / den
+    return not np.allclose(got, want, rtol=1e-10), {"call": "python model with two SLD parameters, radius_pd=0.2 (11 points)",
+                                                    "real": got.tolist(), "spec": np.asarray(want).tolist()}
 
 
 def replay_loops():
